@@ -301,6 +301,6 @@ func init() {
 		New:      func() any { return &C19Case{} },
 		Check:    func(c any) Result { return checkC19(c.(*C19Case)) },
 		Quick:    1200,
-		Thorough: 6000,
+		Thorough: 60000,
 	})
 }
